@@ -40,7 +40,7 @@ KINDS = ['builtin', 'builtin_called', 'user', 'user_called', 'dotted', 'module',
          'group', 'chained']
 MSGS = {'empty': None, 'plain': 'some detail', 'colons': 'a: b: c', 'multi': 'line1\nline2', 'dots': 'pre ... post'}
 POSITIONS = ['first', 'middle', 'last']
-WANTS = ['none', 'exact', 'stack', 'wrongmsg', 'wrongtype', 'nontb', 'ellipsis', 'exact_noraise']
+WANTS = ['none', 'exact', 'stack', 'wrongmsg', 'wrongtype', 'nontb', 'ellipsis', 'exact_noraise', 'suffixtype']
 FLAGSETS = list(itertools.product([0, 1], repeat=3))     # IED, ELLIPSIS, IGNORE_WANT
 
 EXTRA = '''
@@ -216,6 +216,10 @@ def build(kind, mk, pos, wf, flags, ctxno):
         want = [hdr, tname + ': WRONGTOKEN']
     elif wf == 'wrongtype':
         want = [hdr] + ('OtherError' + line[len(tname):]).split('\n')
+    elif wf == 'suffixtype':
+        # another type whose name is the tail of the real one ('ror' for 'ValueError'): not the same type
+        suf = tname[-2:] if tname[-4:-3] == '.' else tname[-3:]
+        want = [hdr] + (suf + line[len(tname):]).split('\n')
     elif wf == 'nontb':
         want = ['some ordinary output']
     elif wf == 'ellipsis':
@@ -248,7 +252,7 @@ def build(kind, mk, pos, wf, flags, ctxno):
             exp = 'pass'
         elif wf == 'wrongmsg':
             exp = 'pass' if ied else 'gotwant'
-        elif wf == 'wrongtype':
+        elif wf in ('wrongtype', 'suffixtype'):
             exp = 'gotwant'
         elif wf == 'ellipsis':
             if msg:
